@@ -138,6 +138,33 @@ func footprintMain(repo string) {
 				}
 				return false
 			}
+			isSliceParam := func(id *ast.Ident, fd *ast.FuncDecl) bool {
+				v, ok := info.Uses[id].(*types.Var)
+				if !ok || fd.Type.Params == nil {
+					return false
+				}
+				for _, fl := range fd.Type.Params.List {
+					for _, n := range fl.Names {
+						if info.Defs[n] == v {
+							_, isSlice := v.Type().Underlying().(*types.Slice)
+							return isSlice
+						}
+					}
+				}
+				return false
+			}
+			returnsTypeOf := func(id *ast.Ident, fd *ast.FuncDecl) bool {
+				v, ok := info.Uses[id].(*types.Var)
+				if !ok || fd.Type.Results == nil {
+					return false
+				}
+				for _, fl := range fd.Type.Results.List {
+					if types.Identical(info.TypeOf(fl.Type), v.Type()) {
+						return true
+					}
+				}
+				return false
+			}
 			for _, f := range files {
 				for _, d := range f.Decls {
 					fd, ok := d.(*ast.FuncDecl)
@@ -233,6 +260,12 @@ func footprintMain(repo string) {
 								if rid := rootIdent(s.Args[0]); rid != nil {
 									if g, ok := isGlobal(rid); ok {
 										gl[g+"(append)"] = true
+									} else if isSliceParam(rid, fd) && !(strings.HasPrefix(fd.Name.Name, "Append") && returnsTypeOf(rid, fd)) {
+										// (an Append* function that returns the extended slice is the documented
+										// append-to-destination idiom: the slice is an output, not an input)
+										// append(param, ...) writes into the spare capacity of the caller's slice
+										// (any element type, variadic parameters included)
+										ent.paramStore = true
 									}
 								}
 							}
